@@ -550,10 +550,10 @@ func (s *UtxoStore) deleteUnminedInputs(tx mwdb.DBTransaction, rec *TxRecord) er
 	for _, input := range rec.MsgTx.TxIn {
 		prevOut := &input.PreviousOutPoint
 		k := canonicalOutPoint(&prevOut.Hash, prevOut.Index)
-		if len(existsRawUnminedInput(nsUnminedInputs, k)) > 0 {
-			if err := deleteRawUnminedInput(nsUnminedInputs, k); err != nil {
-				return err
-			}
+		// other pending transactions may spend the same outpoint: only this
+		// transaction leaves the list of its spenders
+		if err := removeRawUnminedInputSpender(nsUnminedInputs, k, rec.Hash[:]); err != nil {
+			return err
 		}
 	}
 	return nil
